@@ -4,6 +4,8 @@ import (
 	"os"
 	"testing"
 
+	"github.com/apmckinlay/gsuneido/core"
+
 	"verifsim/hkit"
 	"verifsim/simrt"
 )
@@ -21,5 +23,11 @@ func TestSim(t *testing.T) {
 			return c
 		},
 		Main: Run,
+		Warmup: func(string) {
+			for _, n := range []string{"t", "t2", "one", "p", "c"} {
+				core.Global.FindName(nil, "Trigger_"+n)
+			}
+		},
+		WarmupRuns: 6,
 	})
 }
